@@ -31,6 +31,7 @@ type undo struct {
 // itself for attestation leaves) and compares the library's accumulator,
 // reported tree nodes and the client store's proofs with it.
 type ForestMon struct {
+	nodes map[[2]uint64]refmodel.Hash // a consumer's copy of every tree node ever reported (CheckTreeNodes)
 	F     *refmodel.Forest
 	undos []undo
 	R     Reporter
@@ -174,7 +175,35 @@ func (m *ForestMon) OnApply(ev chaingen.ApplyEvent) {
 			}
 		})
 		m.R.Count("tree_nodes_row0_checked", seenRow0)
+		ev.AU.ForEachTreeNode(func(row, col uint64, h types.Hash256) { m.storeNode(row, col, h) })
+		m.checkNodeStore("after-apply", blockWitness(ev))
 	}
+}
+
+// A consumer that keeps the tree nodes it is told about (ForEachTreeNode of every apply and revert update) holds, for
+// every node it has ever been told, the hash that node has now - as long as the node is still a complete subtree of
+// the forest. A node that changed without being reported makes the proofs such a consumer derives wrong.
+func (m *ForestMon) storeNode(row, col uint64, h types.Hash256) {
+	if m.nodes == nil {
+		m.nodes = map[[2]uint64]refmodel.Hash{}
+	}
+	m.nodes[[2]uint64{row, col}] = refmodel.Hash(h)
+}
+
+func (m *ForestMon) checkNodeStore(when string, wit any) {
+	for k, h := range m.nodes {
+		want, ok := m.F.Node(k[0], k[1])
+		if !ok {
+			delete(m.nodes, k) // no longer a complete subtree (the forest shrank)
+			continue
+		}
+		if h != want {
+			m.R.Violate(m.Prop+"/forest/stored-tree-node-stale/"+when, fmt.Sprintf("a store fed by ForEachTreeNode holds %x for node (%d,%d); the forest has %x there: the node changed without being reported", h, k[0], k[1], want), wit)
+			m.nodes = nil
+			return
+		}
+	}
+	m.R.Count("tree_node_stores_compared", 1)
 }
 
 func bitsPattern(n uint64) string {
@@ -217,6 +246,8 @@ func (m *ForestMon) OnRevert(ev chaingen.RevertEvent) {
 				m.R.Violate(m.Prop+"/forest/revert-tree-node-mismatch", fmt.Sprintf("RevertUpdate.ForEachTreeNode (%d,%d) = %x, naive forest has %x", row, col, h, want), nil)
 			}
 		})
+		ev.RU.ForEachTreeNode(func(row, col uint64, h types.Hash256) { m.storeNode(row, col, h) })
+		m.checkNodeStore("after-revert", nil)
 	}
 }
 
